@@ -3,7 +3,7 @@
    Part B: every section parser builds its result from such tokens and checked conversions.
    Part C: the assembled document satisfies wf_file. *)
 From Coq Require Import Arith NArith ZArith List Bool Lia ZifyBool ZifyNat ZifyN.
-From Acme.C08 Require Import DbcAst Chars DbcLex DbcParse DbcWrite Expr ProofsLex ProofsPos ProofsFormat ProofsSections ProofsFile.
+From Acme.C08 Require Import DbcAst Chars DbcLex DbcParse DbcWrite Expr ProofsLex ProofsPos ProofsLexPrint ProofsFormat ProofsSections ProofsFile.
 Import ListNotations.
 Local Open Scope N_scope.
 
@@ -14,12 +14,45 @@ Definition tok_good (up : N -> bool) (t : tok) : Prop :=
   match fst t with
   | KIdent => wf_word up KIdent (snd t) = true
   | KString => expr_string (snd t) = true
+  | KNumber => not_special (snd t) = true
   | _ => True
   end.
 
 (* ---- Part A: the lexer ---- *)
 Section LexGood.
 Variable up : N -> bool.
+Hypothesis Hup : ud_ok up.
+
+Lemma digit_not_letter : forall d, is_digit up d = true -> is_letter d = false.
+Proof.
+  intros d H. unfold is_digit in H. apply orb_true_iff in H. destruct H as [H|H].
+  - unfold ascii_digit, is_letter in *. lia.
+  - destruct (N.ltb_spec d 128) as [Hs|Hs]; [rewrite (Hup d Hs) in H; discriminate|]. unfold is_letter. lia.
+Qed.
+
+(* a number token that starts with a sign continues with a digit *)
+Lemma num_loop_sign_head : forall l first rng k w rest,
+  (first =? ch_minus) || (first =? ch_plus) = true ->
+  num_loop up l first false first false rng = (k, w, rest) ->
+  match w with [] => k <> KNumber | d :: _ => is_letter d = false end.
+Proof.
+  intros l first rng k w rest Hs H. destruct l as [|c r]; cbn [num_loop] in H.
+  - inversion H; subst. unfold finish_number. rewrite Hs. cbn. discriminate.
+  - assert (H0 : (first =? ch_0) = false) by (unfold ch_plus, ch_minus, ch_0 in *; lia).
+    rewrite H0 in H. cbn [andb] in H.
+    assert (Hfin : forall X, (finish_number first false rng, @nil N, X) = (k, w, rest) -> match w with [] => k <> KNumber | d :: _ => is_letter d = false end).
+    { intros X HH. inversion HH; subst. unfold finish_number. rewrite Hs. cbn. discriminate. }
+    assert (Hp : negb (first =? ch_minus) && negb (first =? ch_plus) = false) by (unfold ch_plus, ch_minus in *; lia).
+    destruct (negb (is_digit up c) && negb (c =? ch_dot)) eqn:E1.
+    + replace (((c =? ch_e) || (c =? ch_E)) && negb (first =? ch_minus) && negb (first =? ch_plus) && negb (first =? ch_dot)) with false in H
+        by (destruct ((c =? ch_e) || (c =? ch_E)); cbn [andb]; [rewrite Hp|]; reflexivity).
+      rewrite andb_false_r in H. cbn [andb] in H. eapply Hfin; eauto.
+    + replace ((c =? ch_dot) && ((first =? ch_minus) || (first =? ch_plus))) with (c =? ch_dot) in H
+        by (rewrite Hs, andb_true_r; reflexivity).
+      destruct (c =? ch_dot) eqn:Ed; [eapply Hfin; eauto|].
+      destruct (num_loop up r first false c true rng) as [[k' w'] rest'] eqn:E. inversion H; subst. rename c into d.
+      apply digit_not_letter. destruct (is_digit up d) eqn:Edig; [reflexivity|]. rewrite ?Edig, ?Ed in E1. discriminate E1.
+Qed.
 
 Lemma span_alnum_all : forall l w rest, span_alnum up l = (w, rest) -> forallb (is_alnum up) w = true.
 Proof.
@@ -86,19 +119,24 @@ Proof.
 Qed.
 
 Lemma scan_after'_good : forall fd c r k w rest,
+  (c < 128 -> fd = ascii_digit c) ->
   scan_after' up fd c r = (k, w, rest) -> tok_good up (k, token_value k c w).
 Proof.
-  intros fd c r k w rest H. unfold scan_after' in H.
+  intros fd c r k w rest Hfd H. unfold scan_after' in H.
   destruct (c =? 0); [inversion H; exact I|].
   destruct (is_space c); [destruct (span_space r); inversion H; exact I|].
   destruct (is_letter c) eqn:Hl.
   { destruct (span_alnum up r) as [w' rest'] eqn:E. inversion H; subst.
     unfold tok_good. cbn [fst snd].
-    destruct (classify_text up c w) eqn:Ek; try exact I.
-    - cbn [token_value wf_word]. rewrite Hl, (span_alnum_all _ _ _ E), Ek. reflexivity.
-    - exfalso. unfold classify_text in Ek. destruct (_ || _); [discriminate|]. destruct (is_keyword_text _); discriminate. }
+    destruct (classify_text up c w) eqn:Ek; try exact I;
+      try (exfalso; unfold classify_text in Ek; destruct (_ || _); [discriminate|]; destruct (is_keyword_text _); discriminate).
+    cbn [token_value wf_word]. rewrite Hl, (span_alnum_all _ _ _ E), Ek. reflexivity. }
   destruct (fd || (c =? ch_minus) || (c =? ch_plus)).
-  { apply num_loop_kinds in H. unfold tok_good. cbn [fst]. destruct H as [H|[H|[H|H]]]; subst; exact I. }
+  { pose proof (num_loop_kinds _ _ _ _ _ _ _ _ _ H) as Hk. unfold tok_good. cbn [fst snd].
+    destruct Hk as [Hk|[Hk|[Hk|Hk]]]; subst; try exact I.
+    cbn [token_value not_special]. destruct ((c =? ch_plus) || (c =? ch_minus)) eqn:Es; [|rewrite Hl; reflexivity].
+    assert (fd = false) by (rewrite Hfd; unfold ch_plus, ch_minus, ascii_digit in *; lia). subst fd.
+    rewrite orb_comm in Es. pose proof (num_loop_sign_head _ _ _ _ _ _ Es H) as Hh. destruct w as [|d w']; [congruence|]. rewrite Hh. reflexivity. }
   destruct (c =? ch_quote).
   { destruct (str_loop r) as [[b w'] rest'] eqn:E. inversion H; subst. destruct b; [|exact I].
     destruct (str_loop_closed _ _ _ E) as [v [Hv He]]. subst w. unfold tok_good. cbn [fst snd token_value].
@@ -108,22 +146,23 @@ Qed.
 
 End LexGood.
 
-Lemma lex_fuel_good : forall ud fuel inp p start raw,
+Lemma lex_fuel_good : forall ud, ud_ok ud -> forall fuel inp p start raw,
   lex_fuel ud fuel inp p start = Some raw -> Forall (fun t => tok_good (peek_digits ud) (strip t)) raw.
 Proof.
-  induction fuel as [|f IH]; intros inp p start raw H; [discriminate|].
+  intros ud Hud. induction fuel as [|f IH]; intros inp p start raw H; [discriminate|].
   destruct inp as [|c r]; cbn [lex_fuel] in H.
   - inversion H; subst. constructor; [exact I|constructor].
   - unfold scan_after in H. destruct (scan_after' (peek_digits ud) (is_digit ud c) c r) as [[k w] rest] eqn:E.
     destruct (lex_fuel ud f rest _ _) as [ts|] eqn:E2; [|discriminate]. inversion H; subst. constructor.
-    + unfold strip. cbn [rt_kind rt_value]. eapply scan_after'_good; eauto.
+    + unfold strip. cbn [rt_kind rt_value]. eapply scan_after'_good; [exact (ProofsLexPrint.peek_digits_ok ud Hud)| |exact E].
+      intros Hc. unfold is_digit. rewrite (Hud c Hc). apply orb_false_r.
     + eapply IH; eauto.
 Qed.
 
-Lemma lex_good : forall ud text raw, lex ud text = Some raw ->
+Lemma lex_good : forall ud, ud_ok ud -> forall text raw, lex ud text = Some raw ->
   Forall (tok_good (peek_digits ud)) (map strip (pfilter raw)).
 Proof.
-  intros ud text raw H. unfold lex in H. apply lex_fuel_good in H.
+  intros ud Hud text raw H. unfold lex in H. apply (lex_fuel_good ud Hud) in H.
   rewrite Forall_forall in *. intros t Ht. apply in_map_iff in Ht. destruct Ht as [x [Hx Hin]]. subst.
   apply H. apply ProofsPos.pfilter_In. exact Hin.
 Qed.
@@ -134,7 +173,7 @@ Variable up : N -> bool.
 Variable prs : str -> option N.
 Variable hex : bool.
 (* strconv.ParseFloat returns a finite value when it returns no error *)
-Hypothesis Hprs_fin : forall v b, prs v = Some b -> fin b = true.
+Hypothesis Hprs_fin : forall v b, not_special v = true -> prs v = Some b -> fin b = true.
 
 Notation tg := (tok_good up).
 
@@ -149,6 +188,9 @@ Proof.
 Qed.
 
 Lemma tg_ident : forall t, tg t -> kind_is KIdent t = true -> expr_ident up (snd t) = true.
+Proof. intros [k v] H Hk. unfold kind_is in Hk. cbn [fst] in Hk. apply tkind_eqb_eq' in Hk. subst. exact H. Qed.
+
+Lemma tg_number : forall t, tg t -> kind_is KNumber t = true -> not_special (snd t) = true.
 Proof. intros [k v] H Hk. unfold kind_is in Hk. cbn [fst] in Hk. apply tkind_eqb_eq' in Hk. subst. exact H. Qed.
 
 Lemma tg_string : forall t, tg t -> kind_is KString t = true -> expr_string (snd t) = true.
@@ -225,7 +267,7 @@ Ltac gsolve :=
   try assumption;
   try (eapply tg_ident; eassumption); try (eapply tg_string; eassumption);
   try (eapply parse_uint_u32; eassumption); try (eapply parse_int_i64; eassumption);
-  try (eapply parse_hex_u32; eassumption); try (eapply Hprs_fin; eassumption);
+  try (eapply parse_hex_u32; eassumption); try (eapply Hprs_fin; [eapply tg_number; eassumption|eassumption]);
   try discriminate; auto.
 
 Ltac gtac H := repeat gstep H; inversion H; subst; repeat gstep_any; ginv; gfacts; cbn beta in *; gsolve.
@@ -464,7 +506,7 @@ Qed.
 Lemma p_attr_val_good : good wf_val (p_attr_val prs hex).
 Proof.
   intros ts a r F H. unfold p_attr_val in H. repeat gstep H; inversion H; subst; gfacts; (split; [|assumption]); cbn [wf_val];
-    first [ eapply tg_string; eassumption | eapply parse_hex_u32; eassumption | eapply Hprs_fin; eassumption | eapply parse_int_i64; eassumption ].
+    first [ eapply tg_string; eassumption | eapply parse_hex_u32; eassumption | (eapply Hprs_fin; [eapply tg_number; eassumption|eassumption]) | eapply parse_int_i64; eassumption ].
 Qed.
 Hint Resolve p_attr_val_good : gdb.
 
@@ -533,7 +575,7 @@ Section FileGood.
 Variable up : N -> bool.
 Variable prs : str -> option N.
 Variable hex : bool.
-Hypothesis Hprs_fin : forall v b, prs v = Some b -> fin b = true.
+Hypothesis Hprs_fin : forall v b, not_special v = true -> prs v = Some b -> fin b = true.
 Notation tg := (tok_good up).
 
 Definition item_good (it : item) : Prop :=
@@ -650,12 +692,12 @@ Qed.
 End FileGood.
 
 (* parse_output_expressible *)
-Theorem parse_output_expressible : forall ud prs hex,
-  (forall v b, prs v = Some b -> fin b = true) ->
+Theorem parse_output_expressible : forall ud prs hex, ud_ok ud ->
+  (forall v b, not_special v = true -> prs v = Some b -> fin b = true) ->
   forall t f, parse ud prs hex t = OOk f -> wf_file (peek_digits ud) f.
 Proof.
-  intros ud prs hex Hfin t f H. unfold parse in H. destruct (lex ud t) as [raw|] eqn:EL; [|discriminate].
-  pose proof (lex_good ud t raw EL) as Hg. unfold parse_tokens in H.
+  intros ud prs hex Hud Hfin t f H. unfold parse in H. destruct (lex ud t) as [raw|] eqn:EL; [|discriminate].
+  pose proof (lex_good ud Hud t raw EL) as Hg. unfold parse_tokens in H.
   destruct (parse_loop prs hex _ _ (map strip (pfilter raw))) as [items|n| |] eqn:EP; try discriminate.
   - inversion H; subst. apply assemble_wf. eapply parse_loop_good; eauto.
   - destruct (error_pos (pfilter raw) n); discriminate.
